@@ -19,6 +19,9 @@ def focused_on(rng, fns, var, conds=False):
         if c["tag"] == 1:
             c["name"] = var
             c["cat"] = ""
+            if var == "#value":
+                # the stock predicates compare with numbers: not meaningful for a completion that returns None
+                c["cond"] = dict(S.NOCOND)
     return s
 
 
